@@ -8,7 +8,8 @@ Local Open Scope N_scope.
 Local Open Scope list_scope.
 Notation len := List.length.
 
-Ltac lens := repeat (rewrite app_length in * || cbn [List.length] in * ); lia.
+Ltac assoc := repeat (rewrite <- app_assoc || rewrite <- app_comm_cons || rewrite app_nil_l).
+Ltac lens := unfold bytes, byte in *; repeat (rewrite app_length in * || cbn [List.length] in * ); lia.
 
 Definition starts_not (a : N) (y : bytes) : Prop :=
   match y with c :: _ => (c =? a) = false | [] => False end.
@@ -358,8 +359,8 @@ Lemma cap_args_print caps fuel rest :
 Proof.
   intros Hall He Hn Hlen. unfold capability_string in *. rewrite join_sp_cons in *.
   cbn [sp_join flat_map] in *. fold (sp_join caps) in *.
-  eexists. split; [rewrite <- app_assoc; reflexivity|]. split.
-  - destruct fuel as [|f]; [lia|]. cbn [cap_args app]. rewrite <- app_assoc.
+  eexists. split; [assoc; reflexivity|]. split.
+  - destruct fuel as [|f]; [lia|]. cbn [cap_args app]. assoc.
     rewrite span_app; [|reflexivity|].
     + cbn [orb]. replace (eqb_ci (pbs "IMAP4rev1") K_IMAP4REV1) with true by reflexivity.
       cbn [orb]. change (pbs "IMAP4rev1") with [73; 77; 65; 80; 52; 114; 101; 118; 49].
@@ -416,37 +417,37 @@ Proof.
       unfold capability_string in E. rewrite join_sp_cons in E. rewrite <- app_assoc in E.
       apply app_inv_head in E. rewrite <- E. reflexivity.
   - (* PERMANENTFLAGS *)
-    eexists. split; [rewrite <- app_assoc; reflexivity|].
-    unfold resp_text_code. rewrite <- !app_assoc.
-    change (pbs "PERMANENTFLAGS ") with (K_PERMANENTFLAGS ++ [32]). rewrite <- app_assoc.
+    exists (pbs "PERMANENTFLAGS " ++ print_flags fl). split; [assoc; reflexivity|].
+    unfold resp_text_code. assoc.
+    change (pbs "PERMANENTFLAGS ") with (K_PERMANENTFLAGS ++ [32]). assoc.
     rewrite span_app; [|reflexivity|reflexivity].
     change K_PERMANENTFLAGS with [80; 69; 82; 77; 65; 78; 69; 78; 84; 70; 76; 65; 71; 83].
     eval_closed. cbn [app]. rewrite sp_cons. apply flag_perm_list_print; [exact Hwf|].
     revert Hlen. lens.
-  - eexists. split; [rewrite <- app_assoc; reflexivity|].
-    unfold resp_text_code. rewrite <- !app_assoc.
-    change (pbs "UIDNEXT ") with (pbs "UIDNEXT" ++ [32]). rewrite <- app_assoc.
+  - exists (pbs "UIDNEXT " ++ num n). split; [assoc; reflexivity|].
+    unfold resp_text_code. assoc.
+    change (pbs "UIDNEXT ") with (pbs "UIDNEXT" ++ [32]). assoc.
     rewrite span_app; [|reflexivity|reflexivity].
     change (pbs "UIDNEXT") with [85; 73; 68; 78; 69; 88; 84]. eval_closed.
     cbn [app]. rewrite sp_cons. apply nz_number_num; [exact Hwf|reflexivity].
-  - eexists. split; [rewrite <- app_assoc; reflexivity|].
-    unfold resp_text_code. rewrite <- !app_assoc.
-    change (pbs "UIDVALIDITY ") with (pbs "UIDVALIDITY" ++ [32]). rewrite <- app_assoc.
+  - exists (pbs "UIDVALIDITY " ++ num n). split; [assoc; reflexivity|].
+    unfold resp_text_code. assoc.
+    change (pbs "UIDVALIDITY ") with (pbs "UIDVALIDITY" ++ [32]). assoc.
     rewrite span_app; [|reflexivity|reflexivity].
     change (pbs "UIDVALIDITY") with [85; 73; 68; 86; 65; 76; 73; 68; 73; 84; 89]. eval_closed.
     cbn [app]. rewrite sp_cons. apply nz_number_num; [exact Hwf|reflexivity].
-  - eexists. split; [rewrite <- app_assoc; reflexivity|].
-    unfold resp_text_code. rewrite <- !app_assoc.
-    change (pbs "UNSEEN ") with (pbs "UNSEEN" ++ [32]). rewrite <- app_assoc.
+  - exists (pbs "UNSEEN " ++ num n). split; [assoc; reflexivity|].
+    unfold resp_text_code. assoc.
+    change (pbs "UNSEEN ") with (pbs "UNSEEN" ++ [32]). assoc.
     rewrite span_app; [|reflexivity|reflexivity].
     change (pbs "UNSEEN") with [85; 78; 83; 69; 69; 78]. eval_closed.
     cbn [app]. rewrite sp_cons. apply nz_number_num; [exact Hwf|reflexivity].
   - (* APPENDUID *)
     apply andb_true_iff in Hwf as [Hwf H3]. apply andb_true_iff in Hwf as [H1 H2].
-    eexists. split.
-    { rewrite <- !app_assoc. cbn [app]. rewrite <- !app_assoc. reflexivity. }
+    exists (pbs "APPENDUID " ++ num v ++ SPc :: print_uidset uids). split.
+    { assoc. reflexivity. }
     unfold resp_text_code.
-    change (pbs "APPENDUID ") with (K_APPENDUID ++ [32]). rewrite <- !app_assoc.
+    change (pbs "APPENDUID ") with (K_APPENDUID ++ [32]). assoc.
     rewrite span_app; [|reflexivity|reflexivity].
     change K_APPENDUID with [65; 80; 80; 69; 78; 68; 85; 73; 68]. eval_closed.
     cbn [app]. rewrite sp_cons. rewrite nz_number_num; [|exact H1|reflexivity].
@@ -456,11 +457,10 @@ Proof.
   - (* COPYUID *)
     apply andb_true_iff in Hwf as [Hwf H5]. apply andb_true_iff in Hwf as [Hwf H4].
     apply andb_true_iff in Hwf as [Hwf H3]. apply andb_true_iff in Hwf as [H1 H2].
-    eexists. split.
-    { rewrite <- !app_assoc. cbn [app]. rewrite <- !app_assoc. cbn [app].
-      rewrite <- !app_assoc. reflexivity. }
+    exists (pbs "COPYUID " ++ num v ++ SPc :: print_uidset s ++ SPc :: print_uidset d). split.
+    { assoc. reflexivity. }
     unfold resp_text_code.
-    change (pbs "COPYUID ") with (K_COPYUID ++ [32]). rewrite <- !app_assoc.
+    change (pbs "COPYUID ") with (K_COPYUID ++ [32]). assoc.
     rewrite span_app; [|reflexivity|reflexivity].
     change K_COPYUID with [67; 79; 80; 89; 85; 73; 68]. eval_closed.
     cbn [app]. rewrite sp_cons. rewrite nz_number_num; [|exact H1|reflexivity].
@@ -471,11 +471,10 @@ Proof.
       revert Hlen. lens.
     + revert Hlen. lens.
   - (* MAILBOXID *)
-    eexists. split.
-    { rewrite <- !app_assoc. cbn [app]. change [41; 93] with ([41] ++ [93]).
-      rewrite !app_assoc. reflexivity. }
-    unfold resp_text_code. rewrite <- !app_assoc.
-    change (pbs "MAILBOXID (") with (K_MAILBOXID ++ [32; 40]). rewrite <- !app_assoc.
+    exists (pbs "MAILBOXID (" ++ oid ++ [41]). split.
+    { assoc. reflexivity. }
+    unfold resp_text_code. assoc.
+    change (pbs "MAILBOXID (") with (K_MAILBOXID ++ [32; 40]). assoc.
     rewrite span_app; [|reflexivity|reflexivity].
     change K_MAILBOXID with [77; 65; 73; 76; 66; 79; 88; 73; 68]. eval_closed.
     cbn [app]. rewrite sp_cons. apply objectid_print, Hwf.
